@@ -333,6 +333,11 @@ func mkChunk(kind int, k int, mode int) gen.Chunking {
 		// clean end of input
 		ch.FaultAt = k
 		ch.FaultErr = "unexpected-eof"
+	case 4:
+		// a transient fault: the error is returned once, a retry would
+		// succeed. The call that got the error has still failed.
+		ch.FaultAt = k
+		ch.Transient = true
 	}
 	if kind%5 == 4 {
 		ch.Empty = 3 // empty reads in between
@@ -413,7 +418,7 @@ func TestC11(t *testing.T) {
 						loc := map[string]int64{}
 						for i := w; i < len(ks); i += workers {
 							k := ks[i]
-							for mode := 0; mode < 4; mode++ {
+							for mode := 0; mode < 5; mode++ {
 								c := &faultCase{Streams: []*fitmodel.Stream{p.Stream}, FileTypes: []int{ft}, Chunk: mkChunk(k, k, mode)}
 								if msg, ok := check(rec, c, loc); !ok {
 									rec.Fail("corpus", "", cf.Name+": "+msg, c)
@@ -458,7 +463,7 @@ func TestC11(t *testing.T) {
 			// every offset x {cut, fault, fault with data}
 			cnt := int64(0)
 			for k := 0; k <= total; k++ {
-				for mode := 0; mode < 4; mode++ {
+				for mode := 0; mode < 5; mode++ {
 					c.Chunk = mkChunk(k+mode, k, mode)
 					cnt++
 					if msg, ok := check(rec, c, regions); !ok {
